@@ -9,6 +9,8 @@ characters are decoded into rows and compared with oracles taken from the proper
   renders               render returns a (maxcol x maxrow) canvas and no call raises
   slice                 view == rows [p, p+h) of the wrapped widget's own full rendering for some
                         0 <= p <= max(0, total-h); blank padding only below/right of shorter/narrower content
+  slice-attrs           the same comparison cell for cell INCLUDING display attributes / character sets (read
+                        from canvas.content()): the view's cells are those of rows [p, p+h) of the full rendering
   position              get_scrollpos() after the render is such a p
   bar-drawn             bar columns present  <=>  content has more rows than the view
   bar-parts             bar = trough^a thumb^b trough^c, uniform across the bar width, a+b+c = h
@@ -21,6 +23,14 @@ characters are decoded into rows and compared with oracles taken from the proper
   scroll-moves          (secondary; from the docstrings, not from the statement) unhandled up/down/home/end/
                         wheel/set_scrollpos move by the documented amount, clamped
   listbox-*             the bar clauses with a ListBox (absolute and relative-scroll branches) under ScrollBar
+
+Structured content (family "struct"): wrapped widgets whose canvas consists of SEVERAL shards with canvas views
+that span shard boundaries - Columns of [Pile of short Texts | one tall Text], Columns inside Pile inside Columns,
+a LineBox around such Columns, a BoxAdapter'd ListBox and a nested (already scrolled) Scrollable beside a tall Text,
+Edits inside such Columns - with different display attributes per column (markup and AttrMap).  For these EVERY scroll
+position is visited: set_scrollpos(k) for every k in [-total-1, total+1] (also before the first render), every position
+followed by every key / wheel event / resize / content change, and walks through the whole content with the down / up
+keys, the wheel, the page keys, and a chain of resizes at every position.
 
 Reference side: the wrapped widget's full rendering is obtained from the wrapped widget itself (that *is*
 the definition in the statement); everything else (slice, padding, clamping, bar grammar, expected bar
@@ -44,6 +54,7 @@ KEYS = ("up", "down", "page up", "page down", "home", "end")
 RULES = {
     "C20/renders": "every render of Scrollable / ScrollBar returns a maxcol x maxrow canvas; no render, keypress, mouse_event or set_scrollpos raises",
     "C20/slice": "Scrollable view == rows [p,p+h) of the wrapped widget's full rendering for some 0<=p<=max(0,total-h), cut/padded to the view width, blank rows only when total<h",
+    "C20/slice-attrs": "cell for cell, display attribute and character set of the view == those of rows [p,p+h) of the wrapped widget's full rendering (for a p at which the characters match); padding cells carry none",
     "C20/position": "get_scrollpos() after rendering is a p for which the view is that slice",
     "C20/scroll-moves": "(docstring reading) on content that handles no input: up/down/wheel move one row, home/end go to the ends, page keys move 1..h rows, set_scrollpos(k>=0) -> k, (k<0) -> total-h+k+1, resize/content change keep the row; all clamped to [0,max(0,total-h)]",
     "C20/handled-not-scrolled": "a key (returned None) or mouse event (returned true) handled by the wrapped widget leaves p unchanged, except that the window may follow a cursor that left it",
@@ -126,8 +137,51 @@ TEXTS = {
 TEXT_SHORT, TEXT_LONG = "y\nz", "klmnopqrstuv\nw\nx\ny\nz"
 
 
+def _rows_text(tag, n, attr=None):
+    """Text of n rows 'tag0', 'tag1', ... (display attribute `attr` through markup)."""
+    body = "\n".join(f"{tag}{i}" for i in range(n))
+    return urwid.Text((attr, body) if attr else body)
+
+
+STRUCTS = ("cols", "nest", "lbox", "lbadapt", "nscroll", "sel")
+
+
+def make_struct(name):
+    """Flow widgets whose canvas has several shards and canvas views spanning shard boundaries: the columns of a
+    Columns are split into rows differently (a Pile of short Texts beside one tall Text).  `_c20_tall` is the tall
+    Text (the content-change events rewrite it: shorter than / much longer than its neighbour)."""
+    tall = _rows_text("R", 9 if name == "nest" else 7)
+    right = urwid.AttrMap(tall, "r")
+    left = urwid.Pile([_rows_text("a", 2, "x"), _rows_text("b", 3, "y"), _rows_text("c", 2)])
+    if name == "cols":
+        top = urwid.Pile([urwid.Text("hd"), urwid.Columns([left, right]), _rows_text("t", 3, "z")])
+    elif name == "nest":  # Columns inside Pile inside Columns
+        inner = urwid.Columns([urwid.Pile([_rows_text("a", 1, "x"), _rows_text("b", 2)]), urwid.AttrMap(_rows_text("m", 4), "m")])
+        mid = urwid.Pile([_rows_text("p", 2, "y"), inner, _rows_text("q", 1)])
+        top = urwid.Columns([("weight", 2, mid), right])
+    elif name == "lbox":  # the side borders are one canvas beside the several shards of the Columns
+        box = urwid.LineBox(urwid.Columns([left, right]), tlcorner="+", tline="-", lline="|", trcorner="+", blcorner="+", rline="|", bline="-", brcorner="+")
+        top = urwid.Pile([urwid.Text("hd"), box, _rows_text("t", 2, "z")])
+    elif name == "lbadapt":  # a box widget (ListBox: one canvas per visible item) given 5 rows, beside the tall Text
+        lb = urwid.ListBox(urwid.SimpleListWalker([_rows_text("i", 2, "x"), _rows_text("j", 1), _rows_text("k", 3, "y"), _rows_text("l", 2)]))
+        top = urwid.Pile([urwid.Text("hd"), urwid.Columns([urwid.BoxAdapter(lb, 5), right]), _rows_text("t", 3, "z")])
+    elif name == "nscroll":  # a nested Scrollable that is itself scrolled: its canvas views are already trimmed
+        inner = Scrollable(urwid.Pile([_rows_text("u", 3, "x"), urwid.Columns([urwid.Pile([_rows_text("v", 1), _rows_text("w", 2, "y")]), _rows_text("n", 4)]), _rows_text("o", 2)]))
+        inner.set_scrollpos(2)
+        top = urwid.Pile([urwid.Text("hd"), urwid.Columns([urwid.BoxAdapter(inner, 4), right]), _rows_text("t", 3, "z")])
+    elif name == "sel":  # selectable: Edits (cursor) in the short column
+        sleft = urwid.Pile([urwid.Edit("", "e0"), _rows_text("b", 3, "y"), urwid.Edit("", "e1")])
+        top = urwid.Pile([urwid.Text("hd"), urwid.Columns([sleft, right]), _rows_text("t", 3, "z")])
+    else:
+        raise ValueError(name)
+    top._c20_tall = tall
+    return top
+
+
 def make_content(spec):
     kind = spec[0]
+    if kind == "struct":
+        return make_struct(spec[1])
     if kind == "text":
         return urwid.Text(TEXTS[spec[1]])
     if kind == "pile":
@@ -160,6 +214,8 @@ def change_content(w, spec, how):
         w.set_lines([LETTERS[10 + i] * width for i in range(2 if how == "short" else 9)])
     elif kind == "grab":
         w.set_n(2 if how == "short" else 9)
+    elif kind == "struct":
+        w._c20_tall.set_text("\n".join(f"S{i}" for i in range(2 if how == "short" else 12)))
 
 
 # ---------------------------------------------------------------------------------------------
@@ -167,6 +223,31 @@ def change_content(w, spec, how):
 # ---------------------------------------------------------------------------------------------
 def canvas_rows(canv):
     return [b.decode("ascii") for b in canv.text]
+
+
+NOATTR = (None, None)
+
+
+def canvas_cells(canv):
+    """-> (rows as strings, per row a tuple of (display attribute, character set) per cell), from content().
+    All content here is ASCII: one byte per cell."""
+    rows, attrs = [], []
+    for row in canv.content():
+        t, a = [], []
+        for attr, cs, text in row:
+            t.append(text)
+            a.extend([(attr, cs)] * len(text))
+        rows.append(b"".join(t).decode("ascii"))
+        attrs.append(tuple(a))
+    return rows, attrs
+
+
+def expected_attrs(full_attrs, p, cv, h):
+    out = []
+    for r in range(h):
+        a = full_attrs[p + r][:cv] if p + r < len(full_attrs) else ()
+        out.append(tuple(a) + (NOATTR,) * (cv - len(a)))
+    return out
 
 
 def expected_view(full, p, cv, h):
@@ -299,7 +380,7 @@ class World:
     # -- the wrapped widget's own full rendering (class-level render: not recorded by the spy)
     def full(self, cv):
         canv = type(self.content).render(self.content, () if self.fixed else (cv,), self.focus)
-        rows = canvas_rows(canv)
+        rows, self.full_attrs = canvas_cells(canv)
         cur = canv.cursor
         return rows, (cur[1] if cur is not None else None)
 
@@ -380,7 +461,7 @@ def run_history(cfg, hist, mode, accs, hid):
 def observe(w, ev, accs, key, base):
     c, h = w.size
     canv = w.canv
-    rows = canvas_rows(canv)
+    rows, attrs = canvas_cells(canv)
     det = base | {"size": [c, h], "rows": rows}
     def sample():
         return {"content": list(w.spec), "size": [c, h], "bar": w.bar, "history": base["history"], "mode": base["mode"]}
@@ -391,7 +472,7 @@ def observe(w, ev, accs, key, base):
         w.prev = None
         return
     # ---- bar columns
-    drawn, parts, view, bw = False, None, rows, 0
+    drawn, parts, view, vattrs, bw = False, None, rows, attrs, 0
     if w.bar:
         side, bw = w.bar
         barcols = [r[:bw] if side == "left" else r[c - bw :] for r in rows]
@@ -399,6 +480,7 @@ def observe(w, ev, accs, key, base):
         drawn = all(set(cell) <= {THUMB, TROUGH} for cell in barcols)
         if drawn:
             view = [r[bw:] if side == "left" else r[: c - bw] for r in rows]
+            vattrs = [a[bw:] if side == "left" else a[: c - bw] for a in attrs]
             parts = parse_bar(barcols, bw)
     cv = c - bw if drawn else c
     full, cursor_row = w.full(cv)
@@ -410,6 +492,16 @@ def observe(w, ev, accs, key, base):
     # "class": circumstances of a failure, for grouping only (never used to decide ok)
     det = det | {"full": full, "reported": rep, "candidates": P, "total": total, "class": "content-fits-view" if fits else "content-larger-than-view"}
     accs["C20/slice"].case(key, bool(P), lambda: det | {"why": "view is not rows [p,p+h) of the full rendering for any p in range"}, sample=sample)
+    if P:
+        # cell-exact incl. display attributes: among the positions at which the characters match
+        fa = w.full_attrs
+        PA = [p for p in P if expected_attrs(fa, p, cv, h) == [tuple(a) for a in vattrs]]
+        accs["C20/slice-attrs"].case(
+            key, bool(PA),
+            lambda: det | {"view_attrs": [[repr(x) for x in a] for a in vattrs], "full_attrs": [[repr(x) for x in a] for a in fa],
+                           "why": f"the characters are rows [p,p+h) for p in {P} but the display attributes / character sets of the cells are not those of that slice"},
+            nontrivial=any(x != NOATTR for a in fa for x in a), sample=sample,
+        )
     accs["C20/position"].case(
         key, rep in P, lambda: det | {"why": f"get_scrollpos()={rep} but the view shows p in {P}"}, nontrivial=bool(P), sample=sample
     )
@@ -772,6 +864,77 @@ def scroll_configs(tier):
     return out
 
 
+STRUCT_SIZES = {"quick": [(8, 1), (8, 3), (8, 5), (7, 2)], "thorough": [(8, 1), (8, 2), (8, 3), (8, 5), (8, 8), (7, 2), (9, 4), (12, 3)]}
+
+
+# quick tier: the plain variants on every size and bar; the costlier ones (a render of the LineBox / ListBox / nested
+# Scrollable content takes 2-4 times longer) on the sizes that cut inside and across their row groups
+STRUCT_QUICK_FEWER = {
+    "lbadapt": [((8, 3), None), ((8, 3), ("right", 1)), ((8, 5), None), ((8, 5), ("right", 1))],
+    "nscroll": [((8, 3), None), ((8, 3), ("right", 1)), ((8, 5), None), ((8, 5), ("right", 1))],
+    "lbox": [((8, 3), None), ((8, 3), ("left", 2)), ((7, 2), None)],
+    "nest": [((8, 1), None), ((8, 3), None), ((8, 3), ("left", 2)), ((8, 5), ("right", 1)), ((7, 2), None), ((7, 2), ("right", 1))],
+    "sel": [((8, 1), ("right", 1)), ((8, 3), None), ((8, 3), ("right", 1)), ((8, 5), None), ((7, 2), None), ((7, 2), ("left", 2))],
+}
+
+
+def struct_configs(tier):
+    """Structured (multi-shard) contents; widths >= 7 so that after two 'c-' resizes and a 2-column bar every column of
+    the content still has a cell (narrower Columns are the wrapped widget's own business, not the Scrollable's)."""
+    out = []
+    for name in STRUCTS:
+        combos = [(size, bar) for size in STRUCT_SIZES["quick" if tier == "quick" else "thorough"] for bar in (None, ("right", 1), ("left", 2))]
+        if tier == "quick" and name in STRUCT_QUICK_FEWER:
+            combos = STRUCT_QUICK_FEWER[name]
+        for size, bar in combos:
+            out.append({"content": ["struct", name], "size": list(size), "bar": list(bar) if bar else None, "ffk": False})
+    return out
+
+
+STRUCT_FOLLOW = (
+    [("key", k) for k in KEYS]
+    + [("wheel", 4), ("wheel", 5)]
+    + [("resize", r) for r in ("h1", "h+", "h-", "c-", "c+")]
+    + [("content", "short"), ("content", "long")]
+)
+
+
+def struct_histories(cfg):
+    """Every scroll position of the content, reached by set_scrollpos, by keys, by the wheel and after resizes.
+    -> list of (history, mode)."""
+    CanvasCache.clear()
+    w = World(cfg)
+    c, h = w.size
+    try:
+        total = max(len(w.full(c)[0]), len(w.full(max(1, c - (w.bar[1] if w.bar else 0)))[0]))
+    except Exception:  # noqa: BLE001 - reported by run_history (C20/renders) for every history below
+        total = 12
+    CanvasCache.clear()
+    pmax = max(0, total - h)
+    out = [((), "each")]
+    for k in range(-total - 1, total + 2):  # every explicit position, positive and bottom-relative, in and out of range
+        out.append(((("pos", k),), "each"))
+        out.append(((("pos", k),), "cold"))
+    for ev in STRUCT_FOLLOW + [("click", 0)]:
+        out.append(((ev,), "each"))
+    for k in range(0, total + 1):  # every position followed by every key / wheel / resize / content change
+        for ev in STRUCT_FOLLOW:
+            out.append(((("pos", k), ev), "each"))
+            if ev[0] in ("resize", "content"):
+                out.append(((("pos", k), ev), "end"))
+        # the same position through a chain of resizes
+        out.append(((("pos", k), ("resize", "h+"), ("resize", "c-"), ("resize", "h-"), ("resize", "h-"), ("resize", "c+")), "each"))
+    # walks through the whole content: line keys, wheel, page keys; down again after a resize in the middle
+    n = pmax + 1
+    out.append(((("key", "down"),) * n + (("key", "up"),) * n, "each"))
+    out.append(((("wheel", 5),) * n + (("wheel", 4),) * n, "each"))
+    out.append(((("key", "page down"),) * n + (("key", "page up"),) * n, "each"))
+    out.append(((("key", "end"),) + (("key", "up"),) * n, "each"))
+    out.append(((("key", "down"),) * (n // 2) + (("resize", "h-"),) + (("key", "down"),) * n, "each"))
+    out.append(((("key", "down"),) * (n // 2) + (("resize", "c-"),) + (("key", "down"),) * n + (("resize", "h+"),) + (("key", "up"),) * n, "each"))
+    return out
+
+
 def lb_configs(tier):
     out = []
     ns = (0, 3, 5, 8) if tier == "quick" else (0, 1, 3, 5, 8, 12)
@@ -815,6 +978,13 @@ def _work(job):
             run_history(cfg, hist, "each", accs, (idx, "r", j))
         if cfg["bar"]:
             sweep(cfg, accs, idx)
+    elif kind == "struct":
+        for j, (hist, mode) in enumerate(struct_histories(cfg)):
+            run_history(cfg, hist, mode, accs, (idx, "s", j))
+        for j, hist in enumerate(extra.get("random", ())):
+            run_history(cfg, hist, "each", accs, (idx, "r", j))
+        if cfg["bar"]:
+            sweep(cfg, accs, idx)
     elif kind == "scroll3":
         for j, hist in enumerate(itertools.product(ALPHA3["quick" if tier == "quick" else "thorough"], repeat=3)):
             run_history(cfg, hist, "each", accs, (idx, "3", j))
@@ -846,6 +1016,12 @@ def run(tier="quick", seed=0):
     c3 = len3_configs(tier)
     for i, cfg in enumerate(c3):
         jobs.append(("scroll3", 100000 + i, cfg, tier, {}))
+    stcfgs = struct_configs(tier)
+    for i, cfg in enumerate(stcfgs):
+        nrand = 0 if quick else 60
+        evs = alphabet(tier, cfg["bar"])
+        rand = [tuple(r.choice(evs) for _ in range(r.randint(3, 6))) for _ in range(nrand)]
+        jobs.append(("struct", 300000 + i, cfg, tier, {"random": rand}))
     lcfgs = lb_configs(tier)
     for i, cfg in enumerate(lcfgs):
         nrand = 0 if quick else 100
@@ -868,6 +1044,10 @@ def run(tier="quick", seed=0):
         f"render after every event (+ render-at-end and no-initial-render variants on every {8 if quick else 4}th config); "
         f"all length-3 histories over {len(ALPHA3['quick' if quick else 'thorough'])} core events on {len(c3)} configs; "
         f"{'' if quick else '100 seeded random histories of length 4-6 per config; '}"
+        f"{len(stcfgs)} structured-content configs (multi-shard canvases with views spanning shard boundaries and per-column display attributes: {', '.join(STRUCTS)}; "
+        f"views {STRUCT_SIZES['quick' if quick else 'thorough']}; no bar / right 1 / left 2{' (nest, sel: 6 of these combinations, lbadapt, nscroll: 4, lbox: 3)' if quick else ''}) x [set_scrollpos(k) for every k in -total-1..total+1 warm and cold, every position 0..total followed by each of "
+        f"{len(STRUCT_FOLLOW)} events (keys, wheel, resizes, content changes) and by a chain of 5 resizes, full walks by down/up, wheel, page keys, end+up, walks interrupted by resizes"
+        f"{'' if quick else ', 60 random histories of length 3-6'}]; "
         f"{len(lcfgs)} ListBox-under-ScrollBar configs (<= {8 if quick else 12} items of 1-2 rows) x histories of length <= 2 over {len(LB_EVENTS)} events"
         f"{'' if quick else ' + 100 random histories of length 3-5'}; view width > bar width"
     )
